@@ -32,10 +32,15 @@ def build(args):
     # distinct increasing values for the ranks in use
     ranks = sorted({ln["r"] for ln in lines})
     pool = sorted({Fraction(Decimal(s)) for s in VALUE_POOL})
-    vals = sorted(rng.sample(pool, len(ranks)))
     spell = {}
-    for r, v in zip(ranks, vals):
-        spell[r] = rng.choice([s for s in VALUE_POOL if Fraction(Decimal(s)) == v])
+    if all("sp" in ln for ln in lines):
+        # spellings given with the lines (tables whose sum is almost, but not exactly, one)
+        for ln in lines:
+            spell[ln["r"]] = ln["sp"]
+    else:
+        vals = sorted(rng.sample(pool, len(ranks)))
+        for r, v in zip(ranks, vals):
+            spell[r] = rng.choice([s for s in VALUE_POOL if Fraction(Decimal(s)) == v])
     labels = [w for w in decio.label_pool() if decio.word_ok(w)]
     ds = []
     used = set()
@@ -112,7 +117,7 @@ def build(args):
                 if sc and sc > 0:
                     exp["scale"] = bfs[idx - 1] * Fraction(sc).limit_denominator(10**12) / mx
                 for k, E in exp.items():
-                    if abs(P - E) <= Fraction(1, 10**6) * abs(E):
+                    if fits_printed(P, E):
                         fits.append(k)
             except Exception:  # noqa: BLE001
                 pass
@@ -124,6 +129,19 @@ def build(args):
            "stored_same": snapshot() == before}
     return {"prop": PROP, "cid": cid, "lines": lines, "opt": opt, "pdg": pdg, "obs": obs,
             "text": text, "stdout": out, "call": {k: v for k, v in kw.items()}, "error": raised or "-"}
+
+
+def fits_printed(P, E):
+    """the printed value is E to the 7 significant digits the printer shows (1.5 units of the 7th digit)"""
+    if E == 0:
+        return P == 0
+    import math
+    unit = Fraction(10) ** (math.floor(math.log10(abs(float(E)))) - 6)
+    return abs(P - E) <= Fraction(3, 2) * unit
+
+
+NEAR_ONE = [["0.9", "0.1000005"], ["0.5", "0.3", "0.1999992"], ["0.6000004", "0.4"], ["0.25", "0.7499993"],
+            ["0.7", "0.2", "0.1000008"], ["0.3333333", "0.6666661"], ["0.45", "0.35", "0.15", "0.0499994"]]
 
 
 def _isnum(x):
@@ -196,6 +214,14 @@ def run(tier, seed, replay_path=None):
             extra.append({"lines": [{"r": rng.randint(1, 5), "ph": rng.random() < 0.4} for _ in range(n)],
                           "opt": {"model": rng.random() < 0.5, "kw": rng.random() < 0.5, "asc": rng.random() < 0.5,
                                   "norm": rng.random() < 0.3, "scale": rng.choice(["none", "none", "one", "frac", "frac", "zero", "neg", "big"])}})
+        # tables whose branching fractions sum to one within 1e-6 but not exactly: normalising is *not* the identity
+        for j in range(400 if deep else 60):
+            sp = list(rng.choice(NEAR_ONE))
+            rng.shuffle(sp)
+            order = sorted(set(Fraction(Decimal(x)) for x in sp))
+            extra.append({"lines": [{"r": order.index(Fraction(Decimal(x))) + 1, "ph": rng.random() < 0.3, "sp": x} for x in sp],
+                          "opt": {"model": rng.random() < 0.5, "kw": rng.random() < 0.5, "asc": rng.random() < 0.5,
+                                  "norm": j % 3 != 2, "scale": "none" if j % 3 != 2 else rng.choice(["one", "frac"])}})
         args = [(i, g["lines"], g["opt"], seed * 31 + i) for i, g in enumerate(gen + extra)]
         cases = pmap(build, args)
         rej = judge(cases, wd, o, "judge printed tables (DecPrint trace mode)")
@@ -223,7 +249,7 @@ def run(tier, seed, replay_path=None):
         o.rule = ("(table, option combination) pairs: every table of the DecPrint universe x 2^4 boolean options x 6 scale "
                   "classes, plus random tables of up to 8 lines; printed rows matched to lines by their (unique) daughters; "
                   "distinct = distinct (ranks, options, pdg) triples")
-        o.assumptions = ["a printed value fits a scaling if it agrees with the exact rational to 1e-6 relative (7 significant digits)"]
+        o.assumptions = ["a printed value fits a scaling if it agrees with the exact rational to 1.5 units of the 7th significant digit (the printer shows 7)"]
     finally:
         tlc.cleanup(wd)
     return finish(o)
